@@ -33,7 +33,7 @@ ASSUMPTIONS = [
     "numpy.isclose/allclose on two object vectors or on Awkward arrays is not a documented spelling and is not judged",
 ]
 SHARD_TIMEOUT = {"quick": 900, "thorough": 7200}
-TOLS = [(0.0, 0.0), (1e-12, 0.0), (0.0, 1e-12), (1e-9, 1e-9), (1e-5, 1e-8), (1e-3, 0.0), (0.0, 1e-3), (0.3, 0.0),
+TOLS = [(0.0, 0.0), (1e-12, 0.0), (0.0, 1e-12), (1e-9, 1e-9), (1e-5, 1e-8), (1e-3, 0.0), (0.0, 1e-3), (0.22, 0.0), (0.3, 0.0),
         (0.0, 50.0), (1e300, 0.0)]
 PERT = [2.0 ** -45, 2.0 ** -20, 0.25]
 GROUPS = {2: ((0, 1),), 3: ((0, 1), (2,)), 4: ((0, 1), (2,), (3,))}
@@ -196,14 +196,14 @@ def run_shard(spec, tier, seed):
             "awkwardflat": lambda s, rows, m: B.mk_awk(s, rows, m and any(B.MOM_SPELL[x] for x in R.field_names(s))),
         }
         pairings = [("numpy", "numpy"), ("awkward", "awkward"), ("numpy", "awkwardflat"), ("awkwardflat", "numpy")]
-        for ba, bb in pairings:
+        for (ba, bb), (fa, fb) in itertools.product(pairings, ((True, False), (False, True))):
             try:
-                XA = builders[ba](s1, rows_a, True)
-                XB = builders[bb](s2, rows_b, False)
+                XA = builders[ba](s1, rows_a, fa)
+                XB = builders[bb](s2, rows_b, fb)
             except Exception as e:
                 res.inconc(f"cannot build arrays {ba}/{bb}: {e!r}"[:200])
                 continue
-            cell = f"{cellbase}|{ba}x{bb}"
+            cell = f"{cellbase}|{ba}x{bb}|{int(fa)}{int(fb)}"
 
             def flat(x):
                 if isinstance(x, ak.Array):
@@ -268,6 +268,25 @@ def run_shard(spec, tier, seed):
                 viol(f"exception-object-vs-array pairing=objectx{bb}", cellbase, exc=repr(e)[:300])
                 continue
             exp = [bool(B.mk_obj(s2, rb, False) == A0) for rb in rows_b]
+            if bb == "numpy":
+                # numpy.isclose / numpy.allclose dispatch through the array even when the object comes first:
+                # the tolerance rule is asymmetric (rtol * |other|), so operand order matters
+                for rtol, atol in TOLS:
+                    want_ab = [bool(A0.isclose(B.mk_obj(s2, rb, False), rtol=rtol, atol=atol)) for rb in rows_b]
+                    want_ba = [bool(B.mk_obj(s2, rb, False).isclose(A0, rtol=rtol, atol=atol)) for rb in rows_b]
+                    try:
+                        got_ab = flatf(numpy.isclose(A0, XB, rtol=rtol, atol=atol))
+                        got_ba = flatf(numpy.isclose(XB, A0, rtol=rtol, atol=atol))
+                        all_ab = bool(numpy.allclose(A0, XB, rtol=rtol, atol=atol))
+                    except Exception as e:
+                        viol("exception-in-numpy.isclose pairing=objectxnumpy", cellbase, exc=repr(e)[:300])
+                        break
+                    res.evaluations += 3 * n
+                    if got_ab != want_ab or got_ba != want_ba:
+                        viol("numpy.isclose-differs-from-method pairing=objectxnumpy", cellbase, rtol=rtol, atol=atol,
+                             got=[got_ab, got_ba], expected=[want_ab, want_ba])
+                    if all_ab != all(want_ab):
+                        viol("numpy.allclose-is-not-all-isclose pairing=objectxnumpy", cellbase, rtol=rtol, atol=atol, got=all_ab)
             res.evaluations += 3 * n
             if g1 != exp or g2 != exp:
                 viol(f"broadcast-eq-differs-from-object pairing=objectx{bb}", cellbase, got=[g1, g2], expected=exp)
